@@ -17,7 +17,8 @@ import (
 	"verif/mc"
 )
 
-var defaults = map[string]int{"date": 10, "roman": 128, "sem": 1024, "size": 128, "uu": 45}
+// the limits the library starts with (the statement speaks of "a package's maximum input length", not of particular values)
+var defaults = map[string]int{"date": libdefaults.DateMaxInputLength, "roman": libdefaults.RomanMaxInputLength, "sem": libdefaults.SemMaxInputLength, "size": libdefaults.SizeMaxInputLength, "uu": libdefaults.UUMaxInputLength}
 
 func reset() {
 	libdefaults.All()
